@@ -52,6 +52,10 @@ Apply(st, a) ==
          THEN IF o.l # "No" /\ MemberLayout(a.part) # o.l THEN [st EXCEPT !.err = "layout"]
               ELSE [st EXCEPT !.o[a.to].v = Append(@, a.part), !.err = "none"]
          ELSE [st EXCEPT !.o[a.to].v = Append(@, a.part), !.err = "none"]
+    [] a.op = "push2" ->                                      \* GeometryCollection.Push(g1, g2): ONE variadic call, all or nothing
+         LET o == st.o[a.to] IN
+         IF o.l # "No" /\ (MemberLayout(a.part) # o.l \/ MemberLayout(a.part2) # o.l) THEN [st EXCEPT !.err = "layout"]
+         ELSE [st EXCEPT !.o[a.to].v = @ \o <<a.part, a.part2>>, !.err = "none"]
     [] a.op = "pushbad" -> [st EXCEPT !.err = "layout"]                     \* receiver unchanged
     [] a.op = "reverse" -> [st EXCEPT !.o[a.to].v = ReverseVal(st.o[a.to].k, @), !.err = "none"]
     [] a.op = "swap"    -> [st EXCEPT !.o = <<st.o[2], st.o[1]>>, !.err = "none"]
@@ -73,6 +77,7 @@ Apply(st, a) ==
     [] a.op = "srid"    -> [st EXCEPT !.o[a.to].srid = a.srid, !.err = "none"]
     [] a.op = "reserve" -> [st EXCEPT !.o[a.to].spare = TRUE, !.err = "none"]     \* capacity only
     [] a.op = "setcoords" -> [st EXCEPT !.o[a.to].v = a.v, !.o[a.to].spare = FALSE, !.err = "none"]
+    [] a.op = "setbad" -> [st EXCEPT !.err = "stride"]       \* refused; the receiver's content afterwards is not prescribed (last step only)
     [] a.op = "setlayout" ->                                                   \* GC only
          LET o == st.o[a.to] IN
          IF a.l # "No" /\ \E i \in DOMAIN o.v : MemberLayout(o.v[i]) # a.l THEN [st EXCEPT !.err = "layout"]
